@@ -1044,6 +1044,7 @@ def store_site_coverage(repo, tier):
     sites = [(XLSX_PY, "xlsx_extractor.py", "_read_sheet_data", {"_get_cell_value": "n"}, ("return", None, None), "sheet-data-only-from-_get_cell_value"),
              (XLS_PY, "xls_extractor.py", None, {"_get_cell_values": pair}, ("kwarg", "XlsSheet", "data"), "sheet-data-only-from-_get_cell_values"),
              (ODS_PY, "ods_extractor.py", None, {"_extract_cell_value": pair}, ("attr", "data", None), "sheet-data-only-from-_extract_cell_value")]
+    flows = {}
     for rel, short, fname, norm, sink, label in sites:
         m = loader.module(rel, repo)
         cands = [(fname, m.functions.get(fname))] if fname else list(m.functions.items())
@@ -1052,7 +1053,10 @@ def store_site_coverage(repo, tier):
             if fn is None:
                 continue
             try:
-                pv_ = R.Provenance(fn, norm)
+                mf_ = flows.get(rel)
+                if mf_ is None:
+                    mf_ = flows[rel] = R.ModuleFlow(m, norm)        # helpers of the module are summarised by what they return
+                pv_ = R.Provenance(fn, norm, None, mf_.ret_shape)
                 got = pv_.sinks(*sink)
             except Exception as e:  # noqa  (a shape the interpreter does not know: undecided, never an engine error)
                 why.append(f"{q}: provenance analysis failed ({type(e).__name__})")
